@@ -13,7 +13,7 @@
 (* other can be. TLC checks Determined and Monotone and emits the histories;  *)
 (* the harness writes every network with nothing but the fixed points given.  *)
 EXTENDS Integers, Sequences, FiniteSets, TLC, Json
-CONSTANTS NP, Kinds, Keep, Seed
+CONSTANTS NP, Kinds, MaxExtra, Keep, Seed
 
 U == <<[e |-> 0, n |-> 0, u |-> 100], [e |-> 10, n |-> 1, u |-> 112], [e |-> 4, n |-> 9, u |-> 124], [e |-> 12, n |-> 8, u |-> 88], [e |-> 6, n |-> 4, u |-> 131]>>
 Pt == 1..NP
@@ -27,8 +27,8 @@ Triangle(a, b, c) == Wide(a, b, c) /\ Wide(b, a, c) /\ Wide(c, a, b)
 Ob(t, a, b) == [t |-> t, from |-> a, to |-> b]       \* t: dir, dist, sd, za, dh, vec
 Pair(O, t, a, b) == Ob(t, a, b) \in O \/ Ob(t, b, a) \in O
 
-VARIABLES fixed, built, obs, hist
-vars == <<fixed, built, obs, hist>>
+VARIABLES fixed, built, obs, hist, extra, last
+vars == <<fixed, built, obs, hist, extra, last>>
 Known == fixed \cup built
 
 (* ------------------------------------------------------------------- closure *)
@@ -57,8 +57,8 @@ Grow(O, Kxy, Kz) == LET X == Kxy \cup {p \in Pt \ Kxy : SolvXY(O, Kxy, Kz, p)}
 Closure == Grow(obs, fixed, fixed)
 
 (* -------------------------------------------------------------- construction *)
-Init == /\ fixed \in {F \in SUBSET Pt : Cardinality(F) \in {2, 3}} /\ built = {} /\ obs = {} /\ hist = <<>>
-Step(kind, p, O) == /\ built' = built \cup {p} /\ obs' = obs \cup O /\ hist' = Append(hist, kind) /\ UNCHANGED fixed
+Init == /\ fixed \in {F \in SUBSET Pt : Cardinality(F) \in {2, 3}} /\ built = {} /\ obs = {} /\ hist = <<>> /\ extra = 0 /\ last = 0
+Step(kind, p, O) == /\ extra = 0 /\ built' = built \cup {p} /\ obs' = obs \cup O /\ hist' = Append(hist, kind) /\ UNCHANGED <<fixed, extra, last>>
 Polar(k, p, s, q) == {Ob("dir", s, q), Ob("dir", s, p)}
 Build ==
   \E p \in Pt \ Known, s \in Known : \E q \in Known \ {s} :
@@ -71,18 +71,26 @@ Build ==
     \/ "vec" \in Kinds /\ \E fwd \in BOOLEAN : Step("vec", p, {IF fwd THEN Ob("vec", s, p) ELSE Ob("vec", p, s)})
     \/ "trilatdh" \in Kinds /\ \E b, c \in Known : /\ s < b /\ b < c /\ Triangle(s, b, c) /\ Wide(p, s, b) /\ Wide(p, s, c) /\ Wide(p, b, c)
          /\ Step("trilatdh", p, {Ob("sd", s, p), Ob("sd", b, p), Ob("sd", p, c), Ob("dh", q, p)})
-Next == Build
+(* further consistent observations of any kind between points of the network, in increasing code so that a set is generated once *)
+TCode(t) == IF t = "dir" THEN 0 ELSE IF t = "dist" THEN 100 ELSE IF t = "sd" THEN 200 ELSE IF t = "za" THEN 300 ELSE IF t = "dh" THEN 400 ELSE 500
+Code(o) == TCode(o.t) + o.from * 10 + o.to
+Extra == /\ built # {} /\ extra < MaxExtra
+         /\ \E t \in {"dir", "dist", "sd", "za", "dh", "vec"}, a \in Known, b \in Known :
+              LET o == Ob(t, a, b) IN
+              /\ a # b /\ o \notin obs /\ Code(o) > last
+              /\ (t \in {"dist", "dh", "vec"} => Ob(t, b, a) \notin obs)
+              /\ obs' = obs \cup {o} /\ extra' = extra + 1 /\ last' = Code(o) /\ hist' = Append(hist, "extra")
+              /\ UNCHANGED <<fixed, built>>
+Next == Build \/ Extra
 Spec == Init /\ [][Next]_vars
 
 Determined == Known \subseteq Closure[1] /\ Known \subseteq Closure[2]
 Monotone == [][Grow(obs, fixed, fixed)[1] \subseteq Grow(obs', fixed', fixed')[1] /\ Grow(obs, fixed, fixed)[2] \subseteq Grow(obs', fixed', fixed')[2]]_vars
 
-TCode(t) == IF t = "dir" THEN 0 ELSE IF t = "dist" THEN 100 ELSE IF t = "sd" THEN 200 ELSE IF t = "za" THEN 300 ELSE IF t = "dh" THEN 400 ELSE 500
-Code(o) == TCode(o.t) + o.from * 10 + o.to
 RECURSIVE HashSet(_)
 HashSet(S) == IF S = {} THEN 0 ELSE LET o == CHOOSE x \in S : \A y \in S : Code(x) <= Code(y) IN (Code(o) * 7 + 3 * HashSet(S \ {o})) % 100003
 SetToSeq(S) == LET RECURSIVE f(_) f(T) == IF T = {} THEN <<>> ELSE LET o == CHOOSE x \in T : \A y \in T : Code(x) <= Code(y) IN <<o>> \o f(T \ {o}) IN f(S)
 SortedPts(S) == IF S = {} THEN <<>> ELSE CHOOSE s \in [1..Cardinality(S) -> S] : \A a, b \in 1..Cardinality(S) : a < b => s[a] < s[b]
-Case == [fixed |-> SortedPts(fixed), built |-> SortedPts(built), pts |-> [i \in Pt |-> U[i]], obs |-> SetToSeq(obs), hist |-> hist, extra |-> 0]
+Case == [fixed |-> SortedPts(fixed), built |-> SortedPts(built), pts |-> [i \in Pt |-> U[i]], obs |-> SetToSeq(obs), hist |-> hist, extra |-> extra]
 Emit == (built # {} /\ (HashSet(obs) + 13 * Cardinality(fixed) + Seed) % Keep = 0) => PrintT("CASE " \o ToJson(Case))
 =============================================================================
